@@ -1,5 +1,5 @@
 #!/usr/bin/env bash
-# build.sh <target> [race|norace]
+# build.sh <target> [race|norace|fuzz]
 #   target = main   : harness/*.go mapped into $VERIF_REPO (package main)       -> build/<tag>/main.test
 #   target = basic  : harness_basic/*.go mapped into pkg/authentication/basic    -> build/<tag>/basic.test
 # Env: VERIF_ONLY="c07 c08"  -> only rig_/mon_/ref_ files plus files starting with those prefixes (private builds
@@ -50,7 +50,11 @@ with open(os.path.join(out, "overlay_" + target + ".json"), "w") as fh:
 PY
 
 flags=(-c -tags verif -vet=off -overlay "$out/overlay_$target.json" -modfile "$out/go.mod")
-if [ "$race" = race ]; then flags+=(-race); bin="$out/$target.test"; else bin="$out/$target.norace.test"; fi
+case "$race" in
+  race)   flags+=(-race); bin="$out/$target.test";;
+  fuzz)   flags+=(-fuzz='^FuzzVerif_' ); bin="$out/$target.fuzz.test";;   # coverage-instrumented for the native fuzzer
+  *)      bin="$out/$target.norace.test";;
+esac
 if [ "$target" = main ]; then pkgdir="$VERIF_REPO"; else pkgdir="$VERIF_REPO/pkg/authentication/basic"; fi
 ( cd "$pkgdir" && "$GO" test "${flags[@]}" -o "$bin" . )
 echo "$bin"
